@@ -36,11 +36,11 @@ THEOREMS = [NS + t for t in [
     'C16_final_formerly_order_dependent',
     'C16_terminates_partial', 'C16_terminates_needs_finite',
     'C16_cache_inv', 'C16_cache_once', 'C16_cache_linearizable_partial', 'C16_cache_realtime', 'C16_cache_setmap_overlap_not_linearizable',
-    'C16_cache_provenance', 'C16_cache_content', 'C16_cache_shared', 'C16_ticker_guarded', 'C16_cache_guarded']]
+    'C16_cache_provenance', 'C16_cache_content', 'C16_cache_shared', 'C16_oncecell', 'C16_ticker_guarded', 'C16_cache_guarded']]
 SITES = ['dopen', 'readdir', 'gitignore', 'stat', 'fopen', 'extract']
 TICKER_THEOREM = NS + 'C16_ticker_guarded'
 CACHETABLE_THEOREM = NS + 'C16_cache_guarded'
-COMPARE = ['res', 'done', 'ret', 'f', 'cls', 'maps']
+COMPARE = ['res', 'done', 'same', 'ret', 'f', 'cls', 'maps']
 
 
 def run_race_binary(binary, args, timeout=1800):
@@ -248,14 +248,17 @@ def cache_oracle(case, fi, stats=None):
 
 def judge_free(ctx, rows, oracle, classify, nontrivial, what):
     """free runs have no schedule to replay on the model: the implementation's result is judged by the specification only"""
-    rows = [r for r in rows if r[0].startswith(('pfree ', 'pstrat '))]
+    rows = [r for r in rows if r[0].startswith(('pfree ', 'pstrat ', 'cnc '))]
     if not rows:
         return
     model = ctx.run_driver('drv_c16', [c for c, _ in rows])
     for (case, impl), mod in zip(rows, model):
         fi, fm = lib.fields(impl), lib.fields(mod)
         ctx.add_case(case, nontrivial(case, fi, fm), classify(case, fi, fm))
-        if 'spec' not in fm:
+        if case.startswith('cnc ') and fm.get('same') == '1':
+            if fi.get('same') != fm.get('same') and fi.get('_') != 'panic':
+                ctx.mismatches.append(case)
+        elif 'spec' not in fm:
             ctx.mismatches.append(case)
             if not any('driver rejects' in v[0] for v in ctx.violations):
                 ctx.violation('%s: the driver rejects a free-run case: %s' % (what, mod), [case + '\t' + impl + '\t' + mod], found_input=False, name='free-driver')
@@ -283,6 +286,9 @@ def run(ctx):
                        'single-flight in the model) and by free runs of the real ComputePatches whose attempts answer through a shared stateful linearizable fake client (a real RequestCache)',
                        'C16_cache_linearizable_partial assumes SetMap only runs while no fetch is in flight; with an overlapping SetMap the cache is NOT linearizable '
                        '(C16_cache_setmap_overlap_not_linearizable, replayed on the real cache from the corpus)',
+                       'CombinedNativeClient.clientForSystem is modelled as a once-cell per ecosystem (C16_oncecell: at most one construction, every caller gets the same client); data-race freedom of '
+                       'that lazy initialisation and of the first use of the freshly built request caches is runtime behaviour the model cannot exhibit (an unlocked fast-path read has the same '
+                       'transitions): it is established by the Go race detector on the generated cnc schedules only',
                        'lock discipline of RequestCache.cache/.calls is a kernel-checked table theorem (C16_cache_guarded); requestCacheCall.val/.err are synchronised by sync.WaitGroup, not by mu: '
                        'race freedom there is OBSERVED (all enumerated cache schedules run under the race detector), not proved',
                        'the ONE remaining hypothesis of C16_final_partial / C16_schedule_independent_partial / C16_spec_partial: the per-version comparison of step 5 is a strict weak order on the target '
@@ -294,7 +300,10 @@ def run(ctx):
                        'ConstructPatches is modelled for manifests with distinct requirement names, no new keys, vulnerabilities without subgraphs',
                        'version grammar of the universes: <major>.0.0 parses, ^x / ~x / ranges / 1x do not (asserted against deps.dev npm semver at generator start)',
                        'ticker table: accesses are syntactic (x.f with x a walkContext receiver/parameter/local); aliasing through other pointers is not tracked']
-    ctx.rule = ('real strategies: the REAL relax (npm) and override (Maven) strategies — patchVulns, reqsToRelax / ConstrainingSubgraph, resolution, ConstructPatches, common.ComputePatches — on 11 (quick) / 14 '
+    ctx.rule = ('combined client: a FRESH resolution.CombinedNativeClient per case used by 2..4 goroutines, per ecosystem (npm via a project .npmrc, Maven, PyPI), first calls simultaneous or '
+                'staggered by 300 us, 4 mixes of Versions / Version / Requirements / MatchingVersions per configuration (72 cases quick, x3 thorough; each also under -race, one case at a time), '
+                'against ONE in-process httptest registry (no network) whose first response is delayed; returned values against the same operations on one goroutine, one client per ecosystem, '
+                'at most one fetch per URL. real strategies: the REAL relax (npm) and override (Maven) strategies — patchVulns, reqsToRelax / ConstrainingSubgraph, resolution, ConstructPatches, common.ComputePatches — on 11 (quick) / 14 '
                 '(thorough) deps.dev schema universes: 2..3 advisories with different fix versions on ONE graph node (they share a *DependencySubgraph), diamond parent paths (constraining + '
                 'non-constraining), a second vulnerable package, a fix that introduces a vulnerability; every order of running the attempts one at a time (held at their start, the next released when '
                 'the previous has returned) and free runs (GOMAXPROCS 1/16, repetitions; also under -race, one case at a time) against the closure over attempts run IN ISOLATION on freshly read and '
@@ -388,7 +397,7 @@ def run(ctx):
         t = case.split(' ')
         if t[0] == 'patches':
             return t[5].count('/') >= 2
-        if t[0] == 'pstrat':
+        if t[0] in ('pstrat', 'cnc'):
             return True
         if t[0] == 'pfree':
             return t[4].count('|') >= 2
@@ -421,6 +430,18 @@ def run(ctx):
             if fm.get('order') == '1':
                 return patches_verdict(r, fm['spec'], how)
             return patch_set_verdict(fi.get('raw', r), fm['spec'], how)
+        if t[0] == 'cnc':
+            if fi.get('_') == 'panic':
+                return 'CombinedNativeClient panicked under concurrent use (%s)' % case
+            unh = lambda h: bytes.fromhex(h).decode('utf-8', 'replace') if h not in (None, '-', '') else ''
+            if fi.get('conc') != fi.get('seq'):
+                return ('CombinedNativeClient shared by %d goroutines (%s first calls, %s) returned %r; the same operations on one goroutine return %r'
+                        % (t[3].count(';') + 1, 'staggered' if t[2] == 't' else 'simultaneous', {'n': 'npm', 'm': 'Maven', 'p': 'PyPI'}.get(t[1], t[1]), unh(fi.get('conc')), unh(fi.get('seq'))))
+            if fi.get('same') != '1':
+                return 'the goroutines ended up with different %s registry clients (the lazy initialisation ran more than once)' % t[1]
+            if int(fi.get('hits', '0')) > 1:
+                return 'one registry URL was fetched %s times by one CombinedNativeClient (request cache not shared / not single flight)' % fi.get('hits')
+            return None
         return cache_oracle(case, fi, lin_stats)
 
     def classify(case, fi, fm):
@@ -434,6 +455,8 @@ def run(ctx):
             u['n'] += 1
             depth = max(k.split('=')[0].count('.') for k in t[4].split('|')) if t[4] != '-' else 0
             return 'patches mode=%s order=%s ids<=%d' % (t[1], fm.get('order'), depth + 1)
+        if t[0] == 'cnc':
+            return 'combined-client %s goroutines=%d %s' % ({'n': 'npm', 'm': 'maven', 'p': 'pypi'}.get(t[1], t[1]), t[3].count(';') + 1, 'staggered' if t[2] == 't' else 'simultaneous')
         if t[0] == 'pstrat':
             head = ' '.join(t[:5])
             u = by_universe.setdefault(head, {'order': fm.get('order'), 'res': set(), 'n': 0, 'sample': {}})
@@ -452,7 +475,7 @@ def run(ctx):
             return 'free mode=%s ids<=%d %s%s' % (t[1], depth + 1, t[5].split('r')[0], ' stateful-client' if fi.get('client') == 'stateful' else '')
         return 'cache callers=%d keys=%d setmap=%s' % (t[1].count(',') + 1, len(set(t[1].split(','))), '1' if ',S' in t[2] else '0')
 
-    if not ctx.replay or any(l.startswith(('patches ', 'cache ', 'pfree ', 'pstrat ')) for l in open(ctx.replay)):
+    if not ctx.replay or any(l.startswith(('patches ', 'cache ', 'pfree ', 'pstrat ', 'cnc ')) for l in open(ctx.replay)):
         lib.standard_stream(ctx, gen='c16gen', driver='drv_c16', gen_args=['-seed', str(ctx.seed), '-n', str(n), '-tier', ctx.tier],
                             compare_keys=COMPARE, nontrivial=nontrivial, oracle=oracle, classify=classify, sample_every=1499)
     if not ctx.replay:
@@ -468,6 +491,11 @@ def run(ctx):
             if not okg:
                 ctx.violation('c16gen -mode strat crashed: ' + '; '.join(ctx.notes[-1:]), ['# see notes'], found_input=False, name='gencrash-strat')
             judge_free(ctx, rows, oracle, classify, nontrivial, 'c16gen -mode strat')
+            # one CombinedNativeClient shared by 2..4 goroutines, per ecosystem, against in-process registries: values against a sequential run
+            rows, okg = ctx.run_gen(binary, ['-mode', 'cnc', '-seed', str(ctx.seed), '-tier', ctx.tier])
+            if not okg:
+                ctx.violation('c16gen -mode cnc crashed: ' + '; '.join(ctx.notes[-1:]), ['# see notes'], found_input=False, name='gencrash-cnc')
+            judge_free(ctx, rows, oracle, classify, nontrivial, 'c16gen -mode cnc')
     # schedule independence observed on the implementation itself, per universe
     nu = len(by_universe)
     viol = {'mixed_version_forms': 0, 'of_which_result_LISTS_differ_across_schedules': 0}
@@ -505,15 +533,16 @@ def run(ctx):
         else:
             scan_seeds = [ctx.seed * 100 + i for i in range({'quick': 1, 'thorough': 5}[ctx.tier])]
             # 4a'. free runs under the race detector, sequentially, halting at the first report so that it belongs to ONE case
-        runs = [['-mode', 'free', '-seed', str(ctx.seed), '-tier', ctx.tier], ['-mode', 'strat', '-seed', str(ctx.seed), '-tier', ctx.tier]]
+        runs = [['-mode', 'cnc', '-seed', str(ctx.seed), '-tier', ctx.tier], ['-mode', 'free', '-seed', str(ctx.seed), '-tier', ctx.tier],
+                ['-mode', 'strat', '-seed', str(ctx.seed), '-tier', ctx.tier]]
         if ctx.replay:
-            runs = [['-replay', ctx.replay]] if any(l.startswith(('pfree ', 'pstrat ')) for l in open(ctx.replay)) else []
+            runs = [['-replay', ctx.replay]] if any(l.startswith(('pfree ', 'pstrat ', 'cnc ')) for l in open(ctx.replay)) else []
         for free_args in runs:
-            what = 'real strategies' if 'strat' in free_args else 'free run'
+            what = 'real strategies' if 'strat' in free_args else 'CombinedNativeClient shared by several goroutines: lazily created registry clients and their request caches' if 'cnc' in free_args else 'free run'
             e = lib.goenv()
             e['GORACE'] = 'halt_on_error=1 exitcode=66'
             p = subprocess.run([race_bin] + free_args, stdout=subprocess.PIPE, stderr=subprocess.PIPE, text=True, timeout=1800, env=e, errors='replace')
-            frows = [tuple(l.split('\t', 1)) for l in p.stdout.split('\n') if '\t' in l and l.startswith(('pfree ', 'pstrat '))]
+            frows = [tuple(l.split('\t', 1)) for l in p.stdout.split('\n') if '\t' in l and l.startswith(('pfree ', 'pstrat ', 'cnc '))]
             races['free_runs_under_race'] = races.get('free_runs_under_race', 0) + len(frows)
             rep = race_report(p.stderr)
             if rep or p.returncode == 66:
@@ -521,8 +550,8 @@ def run(ctx):
                 running = [l[6:] for l in p.stderr.split('\n') if l.startswith('@case ')]
                 case = running[-1] if running else '# (case unknown)'
                 i = p.stderr.find('WARNING: DATA RACE')
-                ctx.violation('the race detector reports a data race inside guided remediation\'s patch computation (%s): %s' % (what, rep or 'exit code 66'),
-                              [case] + ['# ' + l for l in p.stderr[i:].split('\n')[:45]], name='race-' + ('strat' if 'strat' in free_args else 'free'))
+                ctx.violation('the race detector reports a data race (%s): %s' % (what if 'cnc' in free_args else 'inside guided remediation\'s patch computation, ' + what, rep or 'exit code 66'),
+                              [case] + ['# ' + l for l in p.stderr[i:].split('\n')[:45]], name='race-' + ('strat' if 'strat' in free_args else 'cnc' if 'cnc' in free_args else 'free'))
             elif p.returncode != 0:
                 ctx.violation('c16gen-race %s exited %d: %s' % (' '.join(free_args[:2]), p.returncode, p.stderr[-600:]), ['# see notes'], found_input=False, name='race-free-crash')
             if drv_ok:
